@@ -477,8 +477,13 @@ impl Router {
         // Remove connections from all groups and
         // discard empty group ( group with no client )
         // note: can we do this in better way?
-        self.shared_subscriptions.retain(|_, group| {
+        let mut turn_moved = Vec::new();
+        self.shared_subscriptions.retain(|name, group| {
+            let turn = group.current_client().cloned();
             group.remove_client(&client_id);
+            if !group.is_empty() && group.current_client().cloned() != turn {
+                turn_moved.push(name.clone());
+            }
             !group.is_empty()
         });
 
@@ -536,6 +541,14 @@ impl Router {
             self.graveyard.save_metrics(id, connection.events);
         }
         self.router_meters.total_connections -= 1;
+
+        // the turn of these groups passed to another member, which may be parked
+        let logs = turn_moved
+            .iter()
+            .filter_map(|name| extract_group(&format!("$share/{name}")))
+            .filter_map(|(_, path)| self.datalog.filter_idx(&path))
+            .collect();
+        self.wake_parked(logs);
     }
 
     /// Handles new incoming data on a topic
@@ -560,6 +573,8 @@ impl Router {
         let mut new_data = false;
         let mut disconnect = false;
         let mut disconnect_reason: Option<DisconnectReasonCode> = None;
+        // Logs of the shared subscription groups whose turn moved on because this client left
+        let mut turn_moved: Vec<FilterIdx> = Vec::new();
 
         // info!("{:15.15}[I] {:20} count = {}", client_id, "packets", packets.len());
 
@@ -746,12 +761,15 @@ impl Router {
                             // Leave the group of this shared subscription only (the client
                             // stays a member of the groups of its other subscriptions) and
                             // discard the group if it is now empty
-                            if let Some((group_name, _)) = extract_group(filter) {
+                            if let Some((group_name, path)) = extract_group(filter) {
                                 if let Some(group) = self.shared_subscriptions.get_mut(&group_name)
                                 {
+                                    let turn = group.current_client().cloned();
                                     group.remove_client(&client_id);
                                     if group.is_empty() {
                                         self.shared_subscriptions.remove(&group_name);
+                                    } else if group.current_client().cloned() != turn {
+                                        turn_moved.extend(self.datalog.filter_idx(&path));
                                     }
                                 }
                             }
@@ -930,6 +948,9 @@ impl Router {
             }
         }
 
+        // the member which holds the turn of these groups now may be parked
+        self.wake_parked(turn_moved);
+
         // Incase BytesMut represents 10 packets, publish error/diconnect event
         // on say 5th packet should not block new data notifications for packets
         // 1 - 4. Hence we use a flag instead of diconnecting immediately
@@ -1054,6 +1075,9 @@ impl Router {
         // NOTE: VecDeque::new() doesn't allocate memory until elements are pushed
         let mut skipped_requests: VecDeque<DataRequest> = VecDeque::new();
 
+        // Logs of the shared subscription groups whose turn moved on in this round
+        let mut turn_moved: Vec<FilterIdx> = Vec::new();
+
         // A new connection's tracker is always initialized with acks request.
         // A subscribe will register data request.
         // So a new connection is always scheduled with at least one request
@@ -1072,6 +1096,7 @@ impl Router {
                     }
                     // add back the skipped requests!
                     self.scheduler.trackv(id, skipped_requests);
+                    self.wake_parked(turn_moved);
                     return Some(());
                 }
             };
@@ -1080,15 +1105,30 @@ impl Router {
                 .group
                 .as_ref()
                 .and_then(|name| self.shared_subscriptions.get_mut(name));
+            let turn = shared_group
+                .as_ref()
+                .map(|group| group.current_client().cloned());
 
-            match forward_device_data(
+            let status = forward_device_data(
                 &mut request,
                 datalog,
                 outgoing,
                 alertlog,
                 connection,
                 shared_group,
-            ) {
+            );
+
+            if let Some(turn) = turn {
+                let group = request
+                    .group
+                    .as_ref()
+                    .and_then(|name| self.shared_subscriptions.get(name));
+                if group.is_some_and(|group| group.current_client().cloned() != turn) {
+                    turn_moved.push(request.filter_idx);
+                }
+            }
+
+            match status {
                 ConsumeStatus::BufferFull => {
                     requests.push_back(request);
                     self.scheduler.pause(id, PauseReason::Busy);
@@ -1120,7 +1160,25 @@ impl Router {
         // Add requests back to the tracker if there are any
         requests.extend(skipped_requests);
         self.scheduler.trackv(id, requests);
+        self.wake_parked(turn_moved);
         Some(())
+    }
+
+    /// The members of a shared subscription group park like any other subscriber when they find
+    /// nothing to forward, also while the group still has unread messages which are another
+    /// member's to take. When the turn moves on, the member holding it now may be one of them:
+    /// wake the requests parked on the group's log, as new data does.
+    fn wake_parked(&mut self, mut logs: Vec<FilterIdx>) {
+        logs.sort_unstable();
+        logs.dedup();
+        for filter_idx in logs {
+            if let Some(parked) = self.datalog.take_waiters(filter_idx) {
+                for (id, request) in parked {
+                    self.scheduler.track(id, request);
+                    self.scheduler.reschedule(id, ScheduleReason::FreshData);
+                }
+            }
+        }
     }
 
     pub fn handle_last_will(
